@@ -41,6 +41,18 @@ theorem gen_match_probe :
       kindTag (mkOverride e.1 (tagSrc 0)) = e.2.1 ∧
       (mkOverride e.1 (tagSrc 0)).apply e.2.2.1 = e.2.2.2.map (fun r => (tagSrc 0, r)) := by decide +kernel
 
+/-- the path string a source examines -/
+def locPath : Loc → Text
+  | .inPkg _ p => p
+  | .onFs p => p
+
+/-- `get_path` of both source classes builds the string the model builds (leading slashes of the resource name are
+stripped by the filesystem source — fix 3e07f6a — and kept by the package source) -/
+theorem gen_path_probe :
+    Gen.pathProbe.length = 38 ∧
+    ∀ e ∈ Gen.pathProbe,
+      locPath ((if e.1 = "fs" then Source.fs e.2.1 else Source.pkg ['p'] e.2.1).loc e.2.2.1) = e.2.2.2 := by decide +kernel
+
 /-- stub `i` answers iff bit `i` of the mask is set; a file for the methods that open, a directory for `listdir` -/
 def maskWorld (mask : Nat) (node : Node) : World := fun l =>
   match l with
@@ -254,25 +266,44 @@ example : isDirPath ['a', '.', 'p', 't'] = false ∧ isDirPath ['t', '/'] = true
 /-- a package source looks the remainder up under its prefix, by plain concatenation -/
 theorem pkg_source_under_prefix (n pfx r : Text) : (Source.pkg n pfx).loc r = .inPkg n (pfx ++ r) := rfl
 
-/-- PARTIAL: a filesystem source looks the remainder up under its prefix PROVIDED the remainder does not begin with a
-slash.  Missing: for a remainder that begins with `/` (resource name `dir//x` under the override `dir/`)
-`os.path.join` discards the prefix — see `fs_source_escapes_prefix` (F-X04a). -/
-theorem fs_source_under_prefix_partial (pfx r : Text) (hp : pfx ≠ []) (hr : r.head? ≠ some '/') :
+/-- a filesystem source looks EVERY remainder up under its prefix (full since fix 3e07f6a): the path examined is the
+prefix, one slash, and the remainder without its leading slashes — whatever the remainder.  What stays outside: the
+statement is about the path STRING; a remainder with `..` segments (`a/../../x`) yields `prefix/a/../../x`, which the
+operating system resolves above the prefix — `FSAssetSource` does not examine segments (checked on the real code, notes
+O-2); such names are excluded from the correspondence. -/
+theorem fs_source_under_prefix (pfx r : Text) (hp : pfx ≠ []) :
     (Source.fs pfx).loc r =
-      .onFs (if r = [] then pfx else if endsWithSlash pfx then pfx ++ r else pfx ++ '/' :: r) := by
+      .onFs (if r = [] then pfx else if endsWithSlash pfx then pfx ++ lstripSlash r else pfx ++ '/' :: lstripSlash r) := by
+  have hr := lstripSlash_head r
   unfold Source.loc joinPath endsWithSlash
   by_cases h1 : r = [] <;> by_cases h2 : pfx.getLast? = some '/' <;> simp [h1, h2, hr, hp]
 
-example : ("/T/fs1/tpl".toList ≠ []) ∧ ("a.pt".toList.head? ≠ some '/') := by decide
+example : "/T/fs1/tpl".toList ≠ [] := by decide
 
-/-- witness of what the full statement would forbid: with `pkg:templates/` overridden by the directory `/T/fs1/tpl`, the
-resource name `templates//etc/passwd` is looked up at `/etc/passwd`, outside the override directory (a package source
-and the default provider look under their own directory: `tpl//etc/passwd` = `tpl/etc/passwd`) -/
-theorem fs_source_escapes_prefix :
+/-- … so no resource name makes it look outside: the examined path always begins with the prefix -/
+theorem fs_source_never_discards_prefix (pfx r : Text) (hp : pfx ≠ []) :
+    ∃ rest, (Source.fs pfx).loc r = .onFs (pfx ++ rest) := by
+  rw [fs_source_under_prefix pfx r hp]
+  by_cases h1 : r = []
+  · exact ⟨[], by simp [h1]⟩
+  · by_cases h2 : endsWithSlash pfx = true
+    · exact ⟨lstripSlash r, by simp [h1, h2]⟩
+    · exact ⟨'/' :: lstripSlash r, by simp [h1, h2]⟩
+
+/-- regression facts about F-X04a (fixed by 3e07f6a): with `pkg:templates/` overridden by the directory `/T/fs1/tpl`, the
+resource name `templates//etc/passwd` reaches the source with the remainder `/etc/passwd`; the OLD `get_path`
+(`os.path.join(prefix, name)`) examined `/etc/passwd`, the repaired one examines `/T/fs1/tpl/etc/passwd`, like a
+package source (`tpl//etc/passwd` = `tpl/etc/passwd`) -/
+theorem fs_source_escaped_prefix_before_fix :
     (mkOverride "templates/".toList (.fs "/T/fs1/tpl".toList)).apply "templates//etc/passwd".toList
         = some (.fs "/T/fs1/tpl".toList, "/etc/passwd".toList) ∧
-      (Source.fs "/T/fs1/tpl".toList).loc "/etc/passwd".toList = .onFs "/etc/passwd".toList ∧
+      fsLocOld "/T/fs1/tpl".toList "/etc/passwd".toList = .onFs "/etc/passwd".toList ∧
+      (Source.fs "/T/fs1/tpl".toList).loc "/etc/passwd".toList = .onFs "/T/fs1/tpl/etc/passwd".toList ∧
       (Source.pkg ['b'] "tpl/".toList).loc "/etc/passwd".toList = .inPkg ['b'] "tpl//etc/passwd".toList := by decide
+
+/-- outside the statement: a remainder with `..` segments stays under the prefix as a string only -/
+theorem fs_source_dotdot_is_lexical :
+    (Source.fs "/T/fs1/tpl".toList).loc "a/../../x".toList = .onFs "/T/fs1/tpl/a/../../x".toList := by decide
 
 /-! ## 3. the six methods agree on the source they use -/
 
